@@ -339,6 +339,24 @@ class _StoreDomain(_Domain):
         for c in ast.walk(stmt):
             if isinstance(c, ast.Attribute) and norm(c) == self.it and \
                     not any(c is p.args[0] for p in pulls):
+                # bulk pull whose whole result goes into the cache in the
+                # same statement: data.extend([list(]islice(it, n)[)])
+                par = getattr(c, '_dt_parent', None)
+                bulk = False
+                if isinstance(par, ast.Call) and norm(par.func) in (
+                        'islice', 'itertools.islice') and \
+                        par.args and par.args[0] is c:
+                    up = getattr(par, '_dt_parent', None)
+                    if isinstance(up, ast.Call) and norm(up.func) in (
+                            'list', 'tuple') and len(up.args) == 1:
+                        up = getattr(up, '_dt_parent', None)
+                    if isinstance(up, ast.Call) and isinstance(
+                            up.func, ast.Attribute) and \
+                            up.func.attr == 'extend' and \
+                            norm(up.func.value) == self.data:
+                        bulk = True
+                if bulk:
+                    continue
                 self._flag(c, 'the iterator is handed on or replaced')
         if pulls:
             if st.pending is not None:
@@ -477,8 +495,10 @@ def rule_puller(model):
             r.finding(gi.where, n, 'next() is not guarded by `index >= '
                       'len(data)`: elements beyond the requested index are '
                       'pulled', node=n, ctx=gi)
-    if not nexts:
+    if not nexts and not r.findings:
         raise AnalysisError('SequenceFromIter.__getitem__: next() not found')
+    if not nexts:
+        return r
     # appended exactly once per pull
     apps = [n for n in own_nodes(gi.node) if isinstance(n, ast.Call)
             and isinstance(n.func, ast.Attribute)
